@@ -78,6 +78,8 @@ pub struct Shared {
 
 thread_local! {
     static GATED: std::cell::Cell<bool> = const { std::cell::Cell::new(false) };
+    /// `W` steps: the thread parks in the backend's `init()`, which a mount calls under the mount lock
+    static GATED_INIT: std::cell::Cell<bool> = const { std::cell::Cell::new(false) };
 }
 
 /// the raw outcome of the two halves of an `X` step (umount on one thread, parked in the
@@ -184,6 +186,13 @@ impl FileSystem for Bk {
 
     fn init(&self, capable: FsOptions) -> io::Result<FsOptions> {
         self.sh.log.lock().unwrap().push(format!("{}.init.{}", self.spec.id, capable.bits()));
+        if GATED_INIT.with(|g| g.get()) {
+            let hook = self.sh.gate.lock().unwrap().take();
+            if let Some((entered, go)) = hook {
+                let _ = entered.send(());
+                let _ = go.recv_timeout(Duration::from_secs(10));
+            }
+        }
         if self.spec.ie != 0 {
             Err(os(self.spec.ie))
         } else {
@@ -902,6 +911,56 @@ impl World {
         let pre = format!("{}.", spec.id);
         let (mcalls, icalls): (Vec<String>, Vec<String>) = log.into_iter().partition(|c| c.starts_with(&pre));
         self.stash.init = Some((ri.unwrap_or_else(|_| "panic".to_string()), icalls));
+        self.stash.mount = Some((rm.unwrap_or_else(|_| Err("panic".to_string())), mcalls));
+    }
+
+    /// `W:<umount path>:<mount fields>`: a MOUNT on one thread, parked inside its backend's init()
+    /// (called under the mount lock once the Vfs is initialised); the UMOUNT of another path is
+    /// started on a second thread meanwhile and has to wait for the lock; then the mount is
+    /// released.  Booked as `m:..` then `u:..` (sequentially equivalent order: the mount first).
+    pub fn run_pair_mount_first(&mut self, upath: &str, mf: &[&str]) {
+        use std::sync::mpsc::sync_channel;
+        let pino = self.vfs.get_root_pseudofs().path_walk(upath).ok().flatten();
+        let spec = BkSpec { id: mf[2].parse().unwrap_or(0), mans: mf[4].to_string(), ie: mf[5].parse().unwrap_or(0) };
+        let map = parse_map(mf[3]);
+        let bk = self.bk(&spec);
+        let (etx, erx) = sync_channel::<()>(1);
+        let (gtx, grx) = sync_channel::<()>(1);
+        *self.sh.gate.lock().unwrap() = Some((etx, grx));
+        let vfs_a = self.vfs.clone();
+        let mp = mf[1].to_string();
+        let ta = std::thread::spawn(move || {
+            GATED_INIT.with(|g| g.set(true));
+            match map {
+                None => vfs_a.mount(bk, &mp),
+                Some(m) => vfs_a.mount_with_id_mapping(bk, &mp, Some(m)),
+            }
+            .map_err(|e| show_vfs_err(&e))
+        });
+        // wait until the mount is parked in init() — or is over without having got there
+        let t_park = std::time::Instant::now();
+        while t_park.elapsed() < Duration::from_secs(60) {
+            if erx.try_recv().is_ok() || ta.is_finished() {
+                break;
+            }
+            std::thread::sleep(Duration::from_micros(200));
+        }
+        let vfs_b = self.vfs.clone();
+        let up = upath.to_string();
+        let tb = std::thread::spawn(move || vfs_b.umount(&up).map_err(|e| show_vfs_err(&e)));
+        // the umount has to wait for the mount lock: give it time to get there
+        let t0 = std::time::Instant::now();
+        while !tb.is_finished() && t0.elapsed() < Duration::from_millis(25) {
+            std::thread::sleep(Duration::from_micros(200));
+        }
+        let _ = gtx.send(());
+        let rm = ta.join();
+        let ru = tb.join();
+        *self.sh.gate.lock().unwrap() = None;
+        let log = self.take_log();
+        let pre = format!("{}.", spec.id);
+        let (mcalls, ucalls): (Vec<String>, Vec<String>) = log.into_iter().partition(|c| c.starts_with(&pre));
+        self.stash.umount = Some((pino, ru.unwrap_or_else(|_| Err("panic".to_string())), ucalls));
         self.stash.mount = Some((rm.unwrap_or_else(|_| Err("panic".to_string())), mcalls));
     }
 
